@@ -1,16 +1,8 @@
 (* C09: HostnameTrieSet = set of hosts at or under the added domains. *)
 From Coq Require Import List ZArith Bool Lia NArith.
 Import ListNotations.
-From UV Require Import Py.Val Py.Str Py.UrlLib Ural.TrieDict Ural.Utils Ural.HostnameTrieSet
+From UV Require Import Py.Val Py.Str Py.StrFacts Py.UrlLib Ural.TrieDict Ural.Utils Ural.HostnameTrieSet
   Proofs.TrieDictFacts Proofs.HostnameTrieFacts.
-
-Lemma str_eqb_spec : forall a b : str, str_eqb a b = true <-> a = b.
-Proof.
-  induction a as [|x a IH]; destruct b as [|y b]; cbn; try (split; [discriminate|discriminate]); try tauto.
-  destruct (N.eqb_spec x y) as [->|Hn].
-  - rewrite IH. split; [intros ->; reflexivity|intros [= ->]; reflexivity].
-  - split; [discriminate|]. intros [= -> _]. contradiction.
-Qed.
 
 (* run a history of adds *)
 Fixpoint hts_run (e : env) (hs : list str) (t : hts) : res hts :=
